@@ -570,34 +570,6 @@ fn judge_case(ctx: &Ctx, idl: &Idl, text: &str, case: &Value, res: &Value) {
     }
 }
 
-/// Members with shapes that are easy to get wrong, added to every driven interface: string sets
-/// next to maps of one-field and of optional values, optionals below arrays/maps, a method whose
-/// inputs are all optional (arguments serialise to `{}`), and several errors of equal name length.
-fn add_probe_members(g: &mut GenIdl, rng: &mut Rng) {
-    let has = |g: &GenIdl, n: &str| g.idl.members.iter().any(|m| m.name == n);
-    if has(g, "ProbeShapes") || has(g, "ProbeAllOptional") || has(g, "ErrA") || has(g, "ErrB") {
-        return;
-    }
-    let set = Ty::Dict(Box::new(Ty::Struct(vec![])));
-    let shapes = vec![
-        ("set".to_string(), set.clone()),
-        ("one".to_string(), Ty::Dict(Box::new(Ty::Struct(vec![("a".into(), Ty::Int)])))),
-        ("optset".to_string(), Ty::Opt(Box::new(set.clone()))),
-        ("arrset".to_string(), Ty::Array(Box::new(set))),
-        ("arropt".to_string(), Ty::Array(Box::new(Ty::Opt(Box::new(Ty::Int))))),
-        ("mapopt".to_string(), Ty::Dict(Box::new(Ty::Opt(Box::new(Ty::Str))))),
-        ("same_a".to_string(), Ty::Str),
-        ("same_b".to_string(), Ty::Str),
-    ];
-    g.idl.members.push(Member { kind: MKind::Method, name: "ProbeShapes".into(), comments: vec![], a: Ty::Struct(shapes.clone()), b: Some(Ty::Struct(shapes)) });
-    let opts = vec![("limit".to_string(), Ty::Opt(Box::new(Ty::Int))), ("filter".to_string(), Ty::Opt(Box::new(Ty::Str))), ("flags".to_string(), Ty::Opt(Box::new(Ty::Array(Box::new(Ty::Bool)))))];
-    g.idl.members.push(Member { kind: MKind::Method, name: "ProbeAllOptional".into(), comments: vec![], a: Ty::Struct(opts), b: Some(Ty::Struct(vec![("n".into(), Ty::Int)])) });
-    g.idl.members.push(Member { kind: MKind::Error, name: "ErrA".into(), comments: vec![], a: Ty::Struct(vec![("why".into(), Ty::Str)]), b: None });
-    g.idl.members.push(Member { kind: MKind::Error, name: "ErrB".into(), comments: vec![], a: Ty::Struct(vec![("code".into(), Ty::Int), ("why".into(), Ty::Opt(Box::new(Ty::Str)))]), b: None });
-    let level = rng.below(2);
-    g.text = render(&g.idl, rng, level);
-}
-
 pub fn main(ctx: &Ctx) -> i32 {
     ctx.set_rule("grammar-directed definitions (all type constructors nested <=3, IDL/Rust keywords as field names, anonymous structs/enums, typedef references, 0-6 members; only constructs the generator is known to compile, see C09) x IDL-type-directed values (boundary ints, floats, empty/non-ASCII/escape-heavy strings, empty and nested collections, every optional set and unset, string sets) x call modes {call, more with 1-3 replies, oneway} x outcomes {reply, each declared error}, plus ill-typed/missing parameters; the driver crate's signatures are copied from the emitted trait; distinct = (definition, method, case); non-trivial = method has >=1 field in or out");
     ctx.assume("expected JSON is built from the definition alone; null-valued object members are treated as absent on both sides ('absent optionals omitted or null')");
